@@ -134,7 +134,7 @@ theorem getD_succ_tail (ks : List KeySet) (k : Nat) : ks.getD (k + 1) [] = ks.ta
 theorem good_cases {e : Expr} {p res evs} (ih : Good P cfg env inp e p res evs) :
     ∀ (es : List Expr) (ks : List KeySet) (k : Nat), es[k]? = some e →
     (k + 1 < es.length →
-      Lead inp p (!env.dry) (!env.dry && decide ((ks.getD k []).card > 1)) e) →
+      Lead inp p true (decide ((ks.getD k []).card > 1)) e) →
     ∀ (sw i done : Nat) (st : CSt) (code : Code) (pc : Nat) (s : St) (f : Frame),
     CodeAt code pc (compileCases env ks es sw i done st).code → Pre env inp code s p →
     ∃ pck, slabelPos code sw (i + k) = some pck ∧
@@ -187,8 +187,8 @@ theorem good_cases {e : Expr} {p res evs} (ih : Good P cfg env inp e p res evs) 
       -- skip the first case
       obtain ⟨_, hc1⟩ := hc.head
       obtain ⟨_, hc2⟩ := hc1.right.right.head
-      have hmono := compile_mono env e0 done (!env.dry)
-        (!env.dry && decide ((ks.headD []).card > 1)) st
+      have hmono := compile_mono env e0 done true
+        (decide ((ks.headD []).card > 1)) st
       obtain ⟨pck, hpos, h'⟩ := good_cases ih (e1 :: es) ks.tail k hk
         (fun hlt => by
           have := hl (by simp only [List.length_cons] at hlt ⊢; omega)
@@ -229,12 +229,9 @@ theorem good_ualt {ks : List KeySet} {es : List Expr} {e : Expr} {p res evs}
     · exact h
     · rw [List.getElem?_eq_none h] at hidx; cases hidx
   have hlead : k + 1 < es.length →
-      Lead inp p (!env.dry) (!env.dry && decide ((ks.getD k []).card > 1)) e := by
+      Lead inp p true (decide ((ks.getD k []).card > 1)) e := by
     intro hlt
-    by_cases hdry : env.dry = true
-    · simp only [hdry, Bool.not_true, Bool.false_and]; exact Lead_false _ _ _ _
-    · simp only [hdry, Bool.not_false, Bool.true_and]
-      obtain ⟨K, hK, hok⟩ := casesLeadOK_get hcl hidx hlt
+    · obtain ⟨K, hK, hok⟩ := casesLeadOK_get hcl hidx hlt
       have hlen := casesLeadOK_length hcl
       have hkk : caseIdx (ks.take (es.length - 1)) (peek inp p) < (ks.take (es.length - 1)).length := by
         rw [hkdef]; simp only [List.length_take]; omega
